@@ -45,7 +45,7 @@ def evaluate(spec):
     labels = ["dsbpos:" + v.get("dsb_pos", "first") if v.get("dsb") else "dsbpos:-", "delivery:" + ("dsb-only" if uses_dsb and not v.get("file", True) else "file+dsb" if uses_dsb else "file"),
               "dsbs:%d" % len(v.get("dsb") or []), "upper:" + v.get("upper", "none"), "sub" if sub else "inproc",
               "kinds:" + "+".join(sorted({c["kind"] for c in spec["conns"]}))]
-    for k in ("shuffle", "crlf", "comments", "blanks", "unrelated", "dup", "explicit"):
+    for k in ("shuffle", "crlf", "comments", "blanks", "unrelated", "dup", "explicit", "no_final_nl"):
         if v.get(k):
             labels.append("decor:" + k)
     nontrivial = bool(o0.pkts) and (dims >= 2 or uses_dsb)
@@ -73,7 +73,8 @@ def variant(draw, nlines, tls_only, allow_sub=True):
     v = {"seed": draw(st.integers(0, 1 << 30)), "shuffle": draw(st.booleans()), "crlf": draw(st.booleans()),
          "comments": draw(st.sampled_from([0, 0, 1, 3])), "blanks": draw(st.sampled_from([0, 0, 1, 2])),
          "unrelated": draw(st.sampled_from([0, 0, 2])), "dup": draw(st.sampled_from([0, 0, 1, 2, 6, 15])),
-         "upper": draw(st.sampled_from(["none", "none", "cr", "sec", "both", "mixed"]))}
+         "upper": draw(st.sampled_from(["none", "none", "cr", "sec", "both", "mixed"])),
+         "no_final_nl": draw(st.sampled_from([False, False, True]))}       # the last line need not end with a line terminator
     mode = draw(st.sampled_from(["file", "dsb_only", "dsb_only", "file+dsb", "split", "partition"]))
     idx = list(range(nlines))
     if mode == "file":
@@ -167,7 +168,7 @@ def stages(tier):
 
 RULE = ("stage line-orders: for a TLS 1.3 (with and without tickets), TLS 1.2, TLS 1.0 and QUIC connection, every order of its key-log lines with one line "
         "repeated at every position (quick: 120 sampled per connection); other stages: a TLS and/or QUIC scenario is run with its canonical key log file and with a generated delivery variant: line permutation, LF/CRLF, "
-        "comment / blank / unrelated / duplicate lines, upper/lower/mixed-case hex in client random and secret, file only / DSB only (no -s) / "
+        "comment / blank / unrelated / duplicate lines, last line with or without a line end, upper/lower/mixed-case hex in client random and secret, file only / DSB only (no -s) / "
         "file + DSB / log split over 2-4 DSBs (blocks may be empty) / lines partitioned between file and DSB, DSBs before the interface description block, first after it, or (TLS-only captures) "
         "anywhere; stage dsb-only-subprocess runs `python -m tlexport.main` without -s from three different working directories; oracle: output "
         "file bytes identical to the canonical run.  Non-trivial: canonical run exports packets and the variant differs in >= 2 decoration "
